@@ -760,8 +760,10 @@ class FnTranslator:
         if name == "_":
             return Var("_", "_", ty, False)
         # shadowing: allowed in the same scope (old binding dead), refused across scopes inside nested blocks
+        # (at the top level of the function body a `let` may shadow a parameter: the parameter is dead from there on)
+        top_level = self.loop_depth == 0 and len(self.scopes) == 2
         for sc in self.scopes[:-1]:
-            if name in sc and len(self.scopes) > 1 and not nested_ok:
+            if name in sc and not nested_ok and not top_level:
                 self.err("`%s` shadows a variable of an enclosing block (not translated)" % name, node)
         lean = lean_name(name)
         v = Var(name, lean, ty, mutable, ref_elem)
@@ -1805,6 +1807,21 @@ unit(name="SrcHorspoolNew", props="property C08", file="src/pattern_matching/hor
                      struct_fields={"Horspool": ["m", "shift", "pattern"]},
                      locals={"shift": "Vec<usize>"},
                      theorem="RbV.Thm.GenSrcHorspoolNew.new_eq_model")])
+
+
+FENWICK_ABS = {"Op::operation": dict(lean="op", args=["T", "T"], ret="T"),
+               "T::default": dict(lean="dflt", args=[], ret="T", is_value=True)}
+
+unit(name="SrcFenwick", props="property C18", file="src/data_structures/bit_tree.rs",
+     generics={"T": "α"}, abstract_fns=FENWICK_ABS,
+     functions=[dict(name="FenwickTree::get", lean="get", header="pub fn get(&self, idx: usize) -> T",
+                     self_fields=[("tree", "Vec<T>")], params=[("idx", "usize")], ret="T",
+                     # `idx` strictly decreases; one unit more than the model's fuel: the translated loop spends one
+                     # unit on the final test of the condition
+                     fuel=["idx + 1"], theorem="RbV.Thm.GenSrcFenwick.get_eq_model"),
+                dict(name="FenwickTree::set", lean="set", header="pub fn set(&mut self, idx: usize, val: T)",
+                     self_fields=[("tree", "Vec<T>")], params=[("idx", "usize"), ("val", "T")], ret=None,
+                     fuel=["tree.length + 1"], theorem="RbV.Thm.GenSrcFenwick.set_eq_model")])
 
 
 def main():
